@@ -139,7 +139,7 @@ pub fn run(args: &[String]) {
     let _seed: u64 = args.first().and_then(|s| s.parse().ok()).unwrap_or(1); // the sweep is exhaustive: no random choice
     let pool = [Kind::Mp2a, Kind::Mp2b, Kind::Mp3, Kind::Mp3b, Kind::Xpub, Kind::Comp, Kind::Uncomp, Kind::XOnly, Kind::Fail];
     let mut n = 0usize;
-    for case in CASES {
+    for (case_idx, case) in CASES.iter().enumerate() {
         let d = match Descriptor::<String>::from_str(case.text) {
             Ok(d) => d,
             Err(e) => {
@@ -219,6 +219,9 @@ pub fn run(args: &[String]) {
                 reparse,
                 if same_script { "same-script" } else if across { "across-tr" } else { "none" }
             );
+            let code = if res.starts_with("ok") { 0 } else if res.starts_with("terr") { 1 } else if res.contains("UncompressedKeysNotAllowed") { 2 } else if res.contains("XOnlyKeysNotAllowed") { 3 } else if res.contains("MultipathDescLenMismatch") { 4 } else { 9 };
+            let ki: Vec<String> = kinds.iter().map(|k| pool.iter().position(|p| p == k).unwrap().to_string()).collect();
+            println!("MPC {} {} {}", case_idx, ki.join(","), code);
             n += 1;
         }
     }
